@@ -234,11 +234,13 @@ class RecordingLearner:
 class TaggedEnv:
     """Class based environment; every context carries the env tag (a string feature)."""
 
-    def __init__(self, tag, n, n_actions=3, fail_at=None, extra=False):
-        self.tag, self.n, self.n_actions, self.fail_at, self.extra = tag, n, n_actions, fail_at, extra
+    def __init__(self, tag, n, n_actions=3, fail_at=None, extra=False, params_raise=False):
+        self.tag, self.n, self.n_actions, self.fail_at, self.extra, self.params_raise = tag, n, n_actions, fail_at, extra, params_raise
 
     @property
     def params(self):
+        if self.params_raise:
+            raise Injected(f"params:{self.tag}")
         return {"env_type": "Tagged", "tag": self.tag, "n": self.n}
 
     def read(self):
@@ -320,11 +322,13 @@ class CountingEvaluator:
 
 
 class FaultyEvaluator:
-    def __init__(self, inner, fail_after, tag="fv"):
-        self.inner, self.fail_after, self.tag = inner, fail_after, tag
+    def __init__(self, inner, fail_after, tag="fv", params_raise=False):
+        self.inner, self.fail_after, self.tag, self.params_raise = inner, fail_after, tag, params_raise
 
     @property
     def params(self):
+        if self.params_raise:
+            raise Injected(f"params:{self.tag}")
         return {"wrapped": type(self.inner).__name__, "fail_after": self.fail_after}
 
     def evaluate(self, environment, learner):
